@@ -14,8 +14,8 @@ use std::sync::atomic::{AtomicU64, Ordering::Relaxed};
 #[derive(Clone, Copy, Debug, PartialEq, Eq, Hash)]
 enum Act {
     Send,
-    Next(u8), // index among all outputs ever attached (attach order)
-    Drop(u8),
+    Next(u16), // index among all outputs ever attached (attach order)
+    Drop(u16),
 }
 impl Act {
     fn name(self) -> String {
@@ -55,12 +55,12 @@ impl Ref {
         }
         for (i, o) in self.outs.iter().enumerate() {
             if o.is_some() {
-                v.push(Act::Next(i as u8));
+                v.push(Act::Next(i as u16));
             }
         }
         for (i, o) in self.outs.iter().enumerate() {
             if o.is_some() {
-                v.push(Act::Drop(i as u8));
+                v.push(Act::Drop(i as u16));
             }
         }
         v
@@ -78,7 +78,13 @@ fn run_history(acts: &[Act], src_len: usize, check_from: usize) -> Result<(Ref, 
     let mut outs: Vec<Option<Output<Probe<f64>>>> = Vec::new();
     let mut r = Ref::default();
     for (step, &a) in acts.iter().enumerate() {
-        let tag = || format!("history {:?} (source of {src_len} frames), step {step} = {}", acts.iter().map(|a| a.name()).collect::<Vec<_>>(), a.name());
+        let tag = || {
+            if acts.len() <= 40 {
+                format!("history {:?} (source of {src_len} frames), step {step} = {}", acts.iter().map(|a| a.name()).collect::<Vec<_>>(), a.name())
+            } else {
+                format!("history of {} actions (source of {src_len} frames), steps {}..={step} = {:?}", acts.len(), step.saturating_sub(5), acts[step.saturating_sub(5)..=step].iter().map(|a| a.name()).collect::<Vec<_>>())
+            }
+        };
         let mut frame = None;
         match a {
             Act::Send => {
@@ -146,7 +152,7 @@ fn soak_history(steps: usize, max_live: usize) -> Vec<Act> {
         let a = if live.is_empty() || (t % 13 == 0 && live.len() < max_live && r.outs.len() < 250) {
             Act::Send
         } else if t % 29 == 28 && live.len() > 1 {
-            Act::Drop(live[(t / 29) % live.len()] as u8)
+            Act::Drop(live[(t / 29) % live.len()] as u16)
         } else {
             // pull bursts: the same output for a few steps, bounded lag
             let i = live[(t / 5) % live.len()];
@@ -155,9 +161,9 @@ fn soak_history(steps: usize, max_live: usize) -> Vec<Act> {
             if at + rc == r.pulled && lagmax >= 9 {
                 // let the slowest catch up instead of growing the backlog further
                 let slow = *live.iter().max_by_key(|&&j| r.pulled - (r.outs[j].unwrap().0 + r.outs[j].unwrap().1)).unwrap();
-                Act::Next(slow as u8)
+                Act::Next(slow as u16)
             } else {
-                Act::Next(i as u8)
+                Act::Next(i as u16)
             }
         };
         match a {
@@ -170,6 +176,70 @@ fn soak_history(steps: usize, max_live: usize) -> Vec<Act> {
             Act::Drop(i) => r.outs[i as usize] = None,
         }
         acts.push(a);
+    }
+    acts
+}
+
+fn many_outputs_acts(m: usize) -> Vec<Act> {
+    let mut acts = vec![Act::Send; m];
+    for i in 0..m {
+        for _ in 0..i % 40 {
+            acts.push(Act::Next(i as u16));
+        }
+    }
+    for _ in 0..m / 2 {
+        acts.push(Act::Send);
+    }
+    for i in (0..m).step_by(3) {
+        acts.push(Act::Drop(i as u16));
+    }
+    // everyone alive catches up with the front (39 frames in), late joiners pull two frames
+    for i in 0..m {
+        if i % 3 != 0 {
+            for _ in 0..39 - i % 40 {
+                acts.push(Act::Next(i as u16));
+            }
+        }
+    }
+    for j in m..m + m / 2 {
+        acts.push(Act::Next(j as u16));
+        acts.push(Act::Next(j as u16));
+    }
+    for i in (1..m).step_by(3) {
+        acts.push(Act::Drop(i as u16));
+        acts.push(Act::Next(((i + 1) % m) as u16));
+    }
+    {
+        // drop the (rare) actions on outputs that were already dropped by an earlier rule
+        let mut live = vec![false; m + m / 2];
+        let mut n = 0usize;
+        acts.into_iter()
+            .filter(|a| match *a {
+                Act::Send => {
+                    live[n] = true;
+                    n += 1;
+                    true
+                }
+                Act::Next(i) => live[i as usize],
+                Act::Drop(i) => std::mem::replace(&mut live[i as usize], false),
+            })
+            .collect()
+    }
+}
+
+fn deep_lag_acts(k: usize, laggards: usize) -> Vec<Act> {
+    let mut acts = vec![Act::Send; laggards + 1];
+    for round in 0..3 {
+        for _ in 0..k {
+            acts.push(Act::Next(0));
+        }
+        for l in 1..=laggards {
+            // the second laggard stops one frame short in odd rounds
+            let n = if l == 2 && round % 2 == 1 { k - 1 } else { k };
+            for _ in 0..n {
+                acts.push(Act::Next(l as u16));
+            }
+        }
     }
     acts
 }
@@ -292,6 +362,17 @@ fn main() {
             let acts = soak_history(v["steps"].as_u64().unwrap_or(1000) as usize, v["max_live"].as_u64().unwrap_or(3) as usize);
             ctx.finish_replay(catch(|| run_history(&acts, acts.len() + 10, 0)).unwrap_or_else(|p| Err(("panic".into(), p))).err().map(|e| e.1.chars().rev().take(400).collect::<String>().chars().rev().collect()));
         }
+        let tail = |r: Result<Result<(Ref, Vec<usize>, usize), Bad>, String>| r.unwrap_or_else(|p| Err(("panic".into(), p))).err().map(|e| e.1.chars().rev().take(300).collect::<String>().chars().rev().collect::<String>());
+        if v["sys"] == "bus_deep_lag" {
+            let acts = deep_lag_acts(v["k"].as_u64().unwrap_or(5) as usize, v["laggards"].as_u64().unwrap_or(1) as usize);
+            ctx.finish_replay(tail(catch(|| run_history(&acts, acts.len() + 10, 0))));
+        }
+        if v["sys"] == "bus_many_outputs" {
+            let acts = many_outputs_acts(v["m"].as_u64().unwrap_or(8) as usize);
+            let a = tail(catch(|| run_history(&acts, 30, 0)));
+            let b = tail(catch(|| run_history(&acts, 100, 0)));
+            ctx.finish_replay(a.or(b));
+        }
         let acts: Vec<Act> = v["actions"].as_array().map(|a| a.iter().filter_map(|x| Act::parse(x.as_str()?)).collect()).unwrap_or_default();
         let r = catch(|| run_history(&acts, v["src_len"].as_u64().unwrap_or(1000) as usize, 0));
         ctx.finish_replay(match r {
@@ -372,19 +453,7 @@ fn main() {
     // deep-lag probes: a leader runs K frames ahead of one or two laggards, who then catch up; repeated
     for k in [5usize, 31, 32, 33, 63, 64, 65, 127, 128, 129, 300] {
         for laggards in [1usize, 2] {
-            let mut acts = vec![Act::Send; laggards + 1];
-            for round in 0..3 {
-                for _ in 0..k {
-                    acts.push(Act::Next(0));
-                }
-                for l in 1..=laggards {
-                    // the second laggard stops one frame short in odd rounds
-                    let n = if l == 2 && round % 2 == 1 { k - 1 } else { k };
-                    for _ in 0..n {
-                        acts.push(Act::Next(l as u8));
-                    }
-                }
-            }
+            let acts = deep_lag_acts(k, laggards);
             let case = json!({"sys":"bus_deep_lag","k":k,"laggards":laggards});
             let _guard_scope = guard::scoped(&case.to_string());
             ctx.add_evals(acts.len() as u64);
@@ -394,6 +463,23 @@ fn main() {
             }
         }
     }
+    // many-output probes: a staircase of M simultaneously live outputs (output i is i frames in),
+    // late joiners attached mid-stream, every third output dropped, everyone catches up
+    for m in [8usize, 33, 100, 255, 256, 257, 300] {
+        let acts = many_outputs_acts(m);
+        let case = json!({"sys":"bus_many_outputs","m":m});
+        let _guard_scope = guard::scoped(&case.to_string());
+        ctx.add_evals(acts.len() as u64);
+        if let Err((key, msg)) = run_history(&acts, 30, 0) {
+            let short: String = msg.chars().rev().take(300).collect::<String>().chars().rev().collect();
+            ctx.violation(&key, case.clone(), format!("{m} simultaneously live outputs in a staircase (finite source of 30 frames): ...{short}"), None);
+        }
+        if let Err((key, msg)) = run_history(&acts, 100, 0) {
+            let short: String = msg.chars().rev().take(300).collect::<String>().chars().rev().collect();
+            ctx.violation(&key, case, format!("{m} simultaneously live outputs in a staircase: ...{short}"), None);
+        }
+    }
+    ctx.rule("many-output probes: M in {8, 33, 100, 255, 256, 257, 300} outputs attached at once, output i pulls i mod 40 frames, M/2 late joiners attached mid-stream, every third output dropped, the rest catch up, further drops interleaved with pulls; over a finite source of 30 frames (exhausted mid-way) and one of 100; same checks after every step");
     ctx.rule("deep-lag probes: a leader runs K frames ahead (K in 5,31,32,33,63,64,65,127,128,129,300) of one or two laggards who then catch up, three rounds, same checks after every step");
     ctx.rule(&format!("soak probes: one deterministic history of {soak_steps} steps (sends, pull bursts, drops chosen by a fixed rule from the step number and the reference state) with up to 1, 2, 3 and 6 live outputs on a single bus, same checks after every step (single executions, labelled)"));
     let c = BusModel { ctx }.checker().threads(1).spawn_bfs().join();
